@@ -793,4 +793,59 @@ theorem model_unitary_backward_forward (j : J2 ℝ)
   rw [e1, e2, e3, e4]
 
 
+/-! ## 10. Round 4: both beam splitters on the executable model, partially polarised light included -/
+section splitter
+variable (c s cq sq pc ps xc xs : ℝ)
+
+/-- **Both beam splitters, partially polarised light** (audit: "CBS for tensors: none"): the executable ports
+`P(θ)·R·E`, `P(θ+π/2)·R·E` (`Model.splitterPorts`, driver op `ports`; `R` the identity for the linear splitter, the
+quarter-wave plate at 45° for the circular one) carry together exactly the input intensity, for every Jones-matrix
+field and every input Stokes vector. -/
+theorem model_splitter_ports_sum_tensor (h : c ^ 2 + s ^ 2 = 1) (hq : cq ^ 2 + sq ^ 2 = 1) (hp : pc ^ 2 + ps ^ 2 = 1)
+    (hx : xc ^ 2 + xs ^ 2 = 1) (e : J2 ℝ) (sv : S4 ℝ) :
+    (jonesStokes (splitterPorts c s (retarder cq sq ⟨pc, ps⟩ ⟨xc, xs⟩) e).1 sv).i
+      + (jonesStokes (splitterPorts c s (retarder cq sq ⟨pc, ps⟩ ⟨xc, xs⟩) e).2 sv).i = (jonesStokes e sv).i := by
+  unfold splitterPorts
+  simp only
+  rw [polarizer_ports_split c s h, model_retarder_conserves_I_tensor cq sq pc ps xc xs hq hp hx]
+
+/-- A unitary matrix conserves the intensity of a Jones vector, in the executable model. -/
+theorem model_unitary_conserves_I_vector (j : J2 ℝ)
+    (h : IsUnitary8 j.a11.re j.a11.im j.a12.re j.a12.im j.a21.re j.a21.im j.a22.re j.a22.im) (e : V2 ℝ) :
+    (vecStokes (j.apply e)).i = (vecStokes e).i := by
+  obtain ⟨⟨xr, xi⟩, ⟨yr, yi⟩, ⟨zr, zi⟩, ⟨wr, wi⟩⟩ := j
+  obtain ⟨⟨pr, pi⟩, ⟨qr, qi⟩⟩ := e
+  obtain ⟨h1, h2, h3, h4⟩ := h
+  simp only at h1 h2 h3 h4
+  jones_model_expand
+  linear_combination (pr * pr + pi * pi) * h1 + (qr * qr + qi * qi) * h2 + 2 * (pr * qr + pi * qi) * h3
+    - 2 * (pr * qi - pi * qr) * h4
+
+/-- The complementary projectors split the intensity of a Jones vector. -/
+theorem model_polarizer_ports_split_vector (h : c ^ 2 + s ^ 2 = 1) (e : V2 ℝ) :
+    (vecStokes ((polarizer c s).apply e)).i + (vecStokes ((polarizer (-s) c).apply e)).i = (vecStokes e).i := by
+  obtain ⟨⟨pr, pi⟩, ⟨qr, qi⟩⟩ := e
+  have e1 : (vecStokes ((polarizer c s).apply ⟨⟨pr, pi⟩, ⟨qr, qi⟩⟩)).i + (vecStokes ((polarizer (-s) c).apply ⟨⟨pr, pi⟩, ⟨qr, qi⟩⟩)).i
+      = (c ^ 2 + s ^ 2) ^ 2 * (vecStokes (⟨⟨pr, pi⟩, ⟨qr, qi⟩⟩ : V2 ℝ)).i := by
+    jones_model_expand; ring
+  rw [e1, h]; ring
+
+/-- … and the two ports of either beam splitter add up to the input intensity for Jones-vector wavefronts. -/
+theorem model_splitter_ports_sum_vector (h : c ^ 2 + s ^ 2 = 1) (hq : cq ^ 2 + sq ^ 2 = 1) (hp : pc ^ 2 + ps ^ 2 = 1)
+    (hx : xc ^ 2 + xs ^ 2 = 1) (e : V2 ℝ) :
+    (vecStokes (splitterPortsV c s (retarder cq sq ⟨pc, ps⟩ ⟨xc, xs⟩) e).1).i
+      + (vecStokes (splitterPortsV c s (retarder cq sq ⟨pc, ps⟩ ⟨xc, xs⟩) e).2).i = (vecStokes e).i := by
+  unfold splitterPortsV
+  simp only
+  rw [model_polarizer_ports_split_vector c s h,
+    model_unitary_conserves_I_vector _ (model_retarder_unitary cq sq pc ps xc xs hq hp hx)]
+
+/-- The atoms of the two splitters satisfy the hypotheses: linear (`R = 1`: `p = x = 1`, any θ) and circular
+(`θ = 0`, quarter-wave plate at 45°: `cq = sq = √½`, `p = (√½, √½)`, `x = 1`). -/
+example : (3 / 5 : ℝ) ^ 2 + (4 / 5) ^ 2 = 1 ∧ (1 : ℝ) ^ 2 + 0 ^ 2 = 1 ∧ Real.sqrt (1 / 2) ^ 2 + Real.sqrt (1 / 2) ^ 2 = 1 := by
+  refine ⟨by norm_num, by norm_num, ?_⟩
+  rw [Real.sq_sqrt (by norm_num)]; norm_num
+
+end splitter
+
 end HcipyVerif.C08
